@@ -1518,6 +1518,38 @@ def run_func(case, res, child_batch=None, fdir=None):
                       'non-callable', ctx)
     judge('direct', d)
 
+    # the same payload decoded again (a worker runs a request per rank, a
+    # master resubmits): what an earlier decode's call left in ITS arguments
+    # must not show in a later decode
+    if not d.get('decode_error') and not d.get('kwargs_none'):
+        try:
+            f1, a1, k1 = m_pytask.PythonTask.get_func_attr(enc)
+            before = copy.deepcopy([a1, k1])
+            if isinstance(a1, list):
+                for x in a1:
+                    if isinstance(x, list):   x.append('left-by-first-run')
+                    elif isinstance(x, dict): x['left-by-first-run'] = 1
+                    elif isinstance(x, set):  x.add('left-by-first-run')
+                a1.append('left-by-first-run')
+            if isinstance(k1, dict):
+                for x in k1.values():
+                    if isinstance(x, list):   x.append('left-by-first-run')
+                    elif isinstance(x, dict): x['left-by-first-run'] = 1
+                k1['comm'] = 'COMM-of-first-run'
+            f2, a2, k2 = m_pytask.PythonTask.get_func_attr(enc)
+            res.count('func_repeated_decodes')
+            if not _same([a2, k2], before):
+                res.violation('func-decode-depends-on-earlier-decode',
+                              'second decode of the same payload gave '
+                              'arguments %r, the first gave %r (the first '
+                              'decode\'s objects were changed in between)'
+                              % ([a2, k2], before), ctx)
+            else:
+                judge('second decode', {'value': _call(f2, a2, k2)})
+        except Exception as e:
+            res.violation('func-decode-raised', 'repeated decode raised %s'
+                          % _clean(repr(e)), ctx)
+
     # the serializer functions underneath, on the same callable and arguments
     ser  = m_ser
     data = [copy.deepcopy(case['args']), copy.deepcopy(case['kwargs'])]
